@@ -44,9 +44,9 @@ Definition slt64 (a b : N) : bool := sbias a <? sbias b.
 Section Transport.
   Variables (T : tworld) (C : tcodes).
 
-  (* what io.ReadFull guarantees, whatever the reader *)
+  (* what io.Writer and io.ReadFull guarantee, whatever the writer / reader *)
   Definition tworld_wf : Prop :=
-    (forall w, snd (t_now T w) < 2 ^ 64) /\
+    (forall w bs, let '(_, n, _) := t_write T w bs in n <= lenN bs) /\
     (forall w n, let '(_, got, e) := t_readfull T w n in
                  bytesb got = true /\ lenN got <= n /\ (e = 0 <-> lenN got = n) /\
                  (e = c_ueof C -> 0 < lenN got)).
